@@ -203,7 +203,8 @@ class Digests(Driver):
 # ---- closures as the VM calls them: (hash_type, sig_blobs, vm)
 
 SIGB = {"sig71": SIGLIKE, "sig9": bytes.fromhex("300602010102010101"), "sig73": SIGLIKE[:4] + b"\x00\x00" + SIGLIKE[4:],
-        "sig76": SIGLIKE + b"\x07" * 5, "sig256": (SIGLIKE * 4)[:256]}
+        "sig76": SIGLIKE + b"\x07" * 5, "sig256": (SIGLIKE * 4)[:256],
+        "sig71-forkid": SIGLIKE[:-1] + b"\x41", "sig71-forkid-c3": SIGLIKE[:-1] + b"\xc3"}
 
 
 def closure_scripts(sig):
@@ -221,7 +222,7 @@ class Closures(Driver):
     id = "C04.closures"
     rule = ("the sighash closures handed to the VM, driven with a stub VM: script shapes containing the signature push "
             "(canonical, twice, non-canonical, inside a larger push, around CODESEPARATORs) x begin_code_hash at every opcode "
-            "boundary x signature blobs x 24 hash types x 6 coin classes x legacy/witness closure")
+            "boundary x signature blobs x 24 hash types x {2, 1, 0} outputs (input index 1) x 6 coin classes x legacy/witness closure")
 
     def __init__(self, tier, seed):
         Driver.__init__(self, tier, seed)
@@ -251,14 +252,16 @@ class Closures(Driver):
         for begin in bounds:
             for blobs in ([], ["sig"], ["sig", "other"]):
                 for ht in self.hts:
-                    case = dict(coin=coin, sig=u["sig"], shape=u["shape"], begin=begin, blobs=blobs, ht=ht)
-                    yield case, self.run(case)
+                    for n_out in (2, 1, 0):          # input index 1: with, and without, an output of the same index
+                        case = dict(coin=coin, sig=u["sig"], shape=u["shape"], begin=begin, blobs=blobs, ht=ht, n_out=n_out)
+                        yield case, self.run(case)
 
     def run(self, case):
         coin = case["coin"]
         sig = SIGB[case["sig"]]
         script = closure_scripts(sig)[case["shape"]]
         p = {a: v[0] for a, v in AXES.items()}
+        p["n_out"] = case.get("n_out", 2)
         Tx = net(coin).tx
         t = build_tx(p)
         try:
@@ -272,6 +275,8 @@ class Closures(Driver):
         vm = VMStub(script, begin)
         code = script[begin:]
         for b in blobs:
+            if coin == "BCH" and b[-1] & 0x40:
+                continue          # Bitcoin Cash: a signature carrying the fork-id bit stays in the script code (no FindAndDelete)
             code, _ = R.find_and_delete(code, R.push_data(b))
         leg, _w = ref_digests(coin, t, idx, code, p["spent"], ht)
         _l, wit = ref_digests(coin, t, idx, script[begin:], p["spent"], ht)
